@@ -32,7 +32,7 @@ CHECKS["C02"] = dict(
          "compared with the contract - on one log file with index intervals 2/3/4/128 injected through the file header "
          "and record sizes in 64/128-byte units (record ends meet 1024-byte read chunks, 2- and 3-byte index deltas), "
          "and on the multi-file store with compaction pointers across real process restarts; seeded native-size "
-         "histories of the real file are validated by TLC against the same contract.",
+         "histories of the real file are validated by TLC against the same contract. One combination uses a unit of 100 000 bytes: records of up to 3.3 MB (larger than the file's growth step and than one read of a file returns).",
     note="clean stop only (crash points are C04); index-area rollover (173k+ records) only in thorough tier; "
          "trusts TLC, harness projection (payload id embedded in the payload bytes)",
     design_ref="5 C02")
@@ -41,7 +41,7 @@ CHECKS["C03"] = dict(
     technique="TLA+ contract RaftLog.tla (TruncateExact action property), truncation-biased TLC behaviours replayed on "
               "LogInnerManager and FileStore before and after reopen, trace validation of recorded histories",
     text="Same machinery as C02 with the truncation-biased next-state relation SpecTrunc: every cut point, re-append "
-         "of shorter/equal/longer entries, reopen; shapes: one file, pointer file + file (after two compactions).",
+         "of shorter/equal/longer entries, reopen; shapes: one file, pointer file + file (after two compactions). One combination uses a unit of 100 000 bytes: records of up to 3.3 MB.",
     note="truncation across a rolled-over (closed) data file needs a 173k-record file and is only reached in the "
          "thorough tier; clean stop only",
     design_ref="5 C03")
@@ -56,7 +56,7 @@ CHECKS["C05"] = dict(
          "rule (<= 20 bytes = new) is kept as a negative control that must fail. Every length-3 behaviour of a small "
          "alphabet plus simulated longer ones (kind-first: real compactions and reopens as frequent as saves, sequences with a "
          "membership / address change between two compactions first) are replayed on the real store; get_initial_state, "
-         "get_membership_config and get_target_addr are compared after every step, reopen = new OS process.",
+         "get_membership_config and get_target_addr are compared after every step, reopen = new OS process. Also every length-4 sequence with exactly ONE write of the file between two restarts (ThinSingleWrite, exported from the complete graph).",
     note="clean stop only; the local node is never a member so the dormant Raft core writes nothing; "
          "rollover-driven catalogue rewrites are represented by first-file creation and compaction",
     design_ref="5 C05")
@@ -76,7 +76,7 @@ CHECKS["C01"] = dict(
          "history, namespaces, users, sequences, persistent instances, replicated cache, MCP tool specs and servers with the "
          "derived reference semantics); named deviations (stale snapshot tail, non-atomic capture, two MCP bookkeeping "
          "deviations) are negative controls. Generated behaviours are executed on the real node wiring: after every step the "
-         "served state is compared with the spec, and at every restart the full dump with the dump taken before the stop.",
+         "served state is compared with the spec, and at every restart the full dump with the dump taken before the stop. Behaviours that publish the content named c before a compaction are replayed a second time with c as a text of 3.3 MB.",
     note="clean stop only; compaction is not run concurrently with applies; cache entries with a TTL and more than ten "
          "publishes per MCP server are not driven; trusts the dump (public query messages + two read-only hooks: sequence "
          "counters, registry dump)",
@@ -148,7 +148,7 @@ CHECKS["C08"] = dict(
     text="The model decides the design of the install protocol exhaustively for small constants (3-4 log entries, 2-3 "
          "chunks); conformance replays TLC schedules on two real nodes: FileStore::do_log_compaction / get_current_snapshot "
          "on the leader, create_snapshot / chunk writes / finalize_snapshot_installation, log appends and process restarts "
-         "on the follower.",
+         "on the follower. Behaviours that publish the content named c before a completed install are replayed a second time with c as a text of 3.3 MB (snapshot records larger than one read of a file returns, megabyte chunks).",
     note="the follower-side chunk handler is a transcription of async-raft 0.6.3 core::install_snapshot running on the real "
          "FileStore (no network, no Raft core); chunk size chosen per snapshot instead of 3 MiB; a follower crash lets "
          "acknowledged writes reach the disk (C04's subject otherwise); two findings are listed as known (resumed install "
@@ -168,7 +168,7 @@ CHECKS["C09"] = dict(
          "specification is replayed through /nacos/v1/cs/configs (POST/PUT/DELETE/GET, accurate and blur search with page "
          "windows, the three spellings of the default namespace) and through ConfigPublish/Remove/QueryRequest over a real "
          "tonic connection; status, body, content-md5 header, content type, listing totals and items are compared after "
-         "every step.",
+         "every step. A full-value import carries its history as listed, which need not end with its content (Import(k, v, hs)).",
     note="front-door leg on a single-member Raft node with sequential calls (the cluster side is C06); history ids are not "
          "visible through the open API and are compared at actor level only",
     design_ref="5 C09")
@@ -185,7 +185,7 @@ CHECKS["C10"] = dict(
          "keys or still be pending, as the spec says, and the emitted subscriber notifications must match. Front door: HTTP long "
          "polls are real pending requests of the in-process application (answered at once / by a later publish or remove "
          "made over HTTP or gRPC / by their time-out in one timed run), gRPC subscribers are real connections whose stream "
-         "must receive exactly one ConfigChangeNotifyRequest per change of a listened key, naming that key.",
+         "must receive exactly one ConfigChangeNotifyRequest per change of a listened key, naming that key. One timed run with a SLOW gRPC subscriber: 30 keys, an HTTP/2 window of 300 bytes, the stream not read while every key is published once - every key must be announced when the client resumes.",
     note="real-time deadlines with generous margins (see evidence assumptions); front-door long polls use no wait or 30 s, "
          "the expiry of a poll is one separate 10 s run",
     design_ref="5 C10")
@@ -198,7 +198,7 @@ CHECKS["C11"] = dict(
     text="TLC checks the design of the incrementally maintained counters, sets and reverse maps over every interleaving of "
          "the ten code paths (small constants; the pre-fix ordering is a negative control that must fail). On the real "
          "actor the invariants are evaluated on a full dump after every step of every generated behaviour - independent of "
-         "what the model predicts - and the dump is also compared with the spec state.",
+         "what the model predicts - and the dump is also compared with the spec state. A heart-beat carries the ephemeral flag as the request spells it (Beat(s, a, eph)): a beat that says ephemeral=false takes a connection-owned instance away from its connection.",
     note="stand-alone actor (no Raft router: the applied Raft entries about persistent instances - RaftEchoUpdate / "
          "RaftEchoRemove - are environment steps delivered as NamingRaftReq messages); dump through a read-only hook", design_ref="5 C11")
 CHECKS["C12"] = dict(
@@ -227,7 +227,7 @@ CHECKS["C13"] = dict(
          "second and TLC evaluates OwnerNotEarly / OwnerInTime / Everywhere / NotBefore over the observed state changes; a fifth "
          "instance is registered through the real HTTP handler and keeps beating through PUT /instance/beat via changing nodes "
          "until the sampling ends - no node may ever report it unhealthy or missing (NeverWhileBeating); a second "
-         "cluster run kills the node responsible for a fresh instance and requires the survivor that takes over to expire it.",
+         "cluster run kills the node responsible for a fresh instance and requires the survivor that takes over to expire it. Many instances per service: 4 services x 3 500 silent HTTP instances (+ beating, connection-owned, persistent ones) on the real actor in real time, its own sweeps, requirements evaluated by TLC (ExpiryMany.tla).",
     note="H = 1, T = 3 ticks in generation; cluster leg: one schedule, time-outs 4 s / 9 s, lateness bound 6.5 s on the "
          "responsible node (the implementation adds 3 s to both time-outs and sweeps every 2 s), 3.5 s to reach the others",
     design_ref="5 C13")
@@ -245,7 +245,7 @@ CHECKS["C19"] = dict(
          "requests, publish bursts crossing the 100-id batch, compactions and restarts, and (c) SnapInstall.tla behaviours over "
          "a sequence-biased alphabet replayed on a real leader node and a real follower node: a follower that already holds "
          "a counter is caught up by a snapshot installed into its RUNNING state machine and must end with the leader's "
-         "next-free values (a lower value would be issued twice once that node leads).",
+         "next-free values (a lower value would be issued twice once that node leads). The import of the recorder runs while five ordinary publishes (keys of their own) are issued: their log entries land between the importer's.",
     note="one real Raft member for the id streams; the two-node install leg hand-carries entries and chunks (as C08); "
          "multi-node draws are model-level plus replicated-counter semantics "
          "(C07); response reordering inside the actor is a stated scheduling assumption",
@@ -281,7 +281,7 @@ CHECKS["C15"] = dict(
     text="The message-level model decides convergence for every interleaving of 3-4 operations with sync messages and "
          "anti-entropy rounds; the cluster leg runs take-over, update-then-deregister within one sync batch, node-death/rejoin "
          "and seeded random scenarios (gRPC connections and HTTP-style registrations, three weights) on real "
-         "processes and compares what every live node returns after quiescence (and keeps returning) with the model.",
+         "processes and compares what every live node returns after quiescence (and keeps returning) with the model. HTTP instances are compared with their weight; scenario beat_via_non_owner: heart-beats of weighted HTTP instances through every node in turn, HTTP reads judged in between without settling (THBeat, THRead).",
     note="gRPC connection-owned ephemeral instances of one service; an address is registered through one node at a time; "
          "HTTP-registered instances and heartbeat expiry are outside these scenarios (C13); quiescence = 29 s without "
          "operations (two anti-entropy intervals), dead nodes get 21 s to be noticed; TSettle in the trace spec is the "
@@ -320,7 +320,7 @@ CHECKS["C18"] = dict(
          "none, {A}, {default}, mixed) x 5 namespace spellings (A, B, default omitted / empty / 'public') executed as a "
          "logged-in user on the real console app of a single-member Raft node with seeded data in three namespaces; "
          "NoForeignAccess (nothing of a forbidden namespace in the answer, state digest unchanged) and AllowedWorks evaluated "
-         "on every observation.",
+         "on every observation. Two endpoints send key lists that MIX namespaces (a permitted key first, then keys of the other namespaces); requirement NeverLeaks: no answer contains data of a namespace the user may not access, whatever namespace the request addresses.",
     note="endpoint table is hand-written and cross-checked against the route inventory; data routes not in the table are "
          "listed in the evidence (MCP, some v1 naming writes); an empty answer instead of a refusal is accepted (nothing "
          "leaks, nothing changes); privilege groups with enabled=true only; two of three privilege shapes use the session in its "
